@@ -46,3 +46,7 @@ claim('C07', 'required-guard / quantifier-form analysis of validators (dominatin
       'the adjacency check; C07.c compile loop keeps exactly what the gateset validates, raises when stuck, stage order and context forwarding; '
       'C07.d gateset options are used and part of the value',
       'unitary equivalence of compiled/routed circuits, that decomposers only emit accepted gates, routing optimality')
+claim('C13', 'finite-domain transfer-function extraction (my AST evaluator over the complete bit domain) against Pauli-conjugation tables computed from textbook matrices; dispatch-chain and exponent-classification agreement',
+      'C13.a every CliffordTableau update rule and exponent class == conjugation table of the textbook gate (exhaustive); C13.b rowsum phase function and row decoder; '
+      'C13.c dispatcher calls the tested gate\'s rule with axes/exponent/global shift, SWAP = three CX; C13.d tableau and CH-form classify every exponent alike',
+      'CH-form update algebra and amplitudes, measurement/rowsum loops, CliffordGate group laws, from_unitary, decompositions')
